@@ -556,5 +556,19 @@ theorem dcmp_eq_gt {x y : Dyadic} : dcmp x y = .gt ↔ y < x := by
       · exact absurd h3 h2
       · exact h3
 
+/-- on an integral double, `truncInt` is its exact value -/
+theorem truncInt_hasVal {s : Bool} {m : Nat} {e : Int} (h : fractNonzero (fin s m e) = false) :
+    HasVal (fin s m e) (truncInt s m e) 0 := by
+  rw [hasVal_fin]
+  unfold truncInt
+  by_cases he : e ≥ 0
+  · rw [if_pos he, Int.sub_zero, pow2_of_nonpos (by omega : 0 - e ≤ 0)]; simp
+  · rw [if_neg he, Int.sub_zero, pow2_of_nonpos (by omega : e ≤ 0), Int.zero_sub,
+      ← smant_mul s (m / pow2 (-e)) (pow2 (-e))]
+    simp only [fractNonzero] at h
+    rw [if_neg he] at h
+    have hmod : m % pow2 (-e) = 0 := by simpa using h
+    rw [Nat.div_mul_cancel (Nat.dvd_of_mod_eq_zero hmod)]; simp
+
 end F64
 end Ag
